@@ -27,7 +27,7 @@ type WriteCase struct {
 	Tasks     []string `json:"tasks"`
 	Nested    bool     `json:"nested"`
 	PreCache  bool     `json:"pre_cache"`
-	// SpokLink: the spokfile is a symbolic link to conf/real.spok (which holds the text); the
+	// SpokLink: the spokfile is a symbolic link to conf/spokfile (which holds the text); the
 	// project directory — cache, globs, .env — is still where the link is
 	SpokLink bool `json:"spok_link,omitempty"`
 	// Elsewhere: spok is started in a directory outside the project with --spokfile <project>/spokfile
@@ -139,7 +139,7 @@ func execWrite(s *ev.Shard, b *sandbox.Box, c WriteCase) *rp.Fail {
 	}
 	if c.Class != "absent" {
 		if c.SpokLink {
-			files["conf/real.spok"] = c.Src
+			files["conf/spokfile"] = c.Src
 		} else {
 			files["spokfile"] = c.Src
 		}
@@ -163,7 +163,7 @@ func execWrite(s *ev.Shard, b *sandbox.Box, c WriteCase) *rp.Fail {
 	}
 	if c.Class != "absent" && c.SpokLink {
 		lp := filepath.Join(b.Proj, "spokfile")
-		if err := os.Symlink("conf/real.spok", lp); err != nil {
+		if err := os.Symlink("conf/spokfile", lp); err != nil {
 			return &rp.Fail{Sig: "harness", Msg: err.Error()}
 		}
 		_ = os.Lchown(lp, 65534, 65534)
@@ -221,7 +221,7 @@ func execWrite(s *ev.Shard, b *sandbox.Box, c WriteCase) *rp.Fail {
 	case hasFlag(c.Flags, "--fmt") && c.Class == "valid":
 		if c.SpokLink {
 			// the text lives behind the link: the link itself stays what it is
-			spokRel = "proj/conf/real.spok"
+			spokRel = "proj/conf/spokfile"
 		}
 		allowed[spokRel] = "modified"
 	}
@@ -243,7 +243,7 @@ func execWrite(s *ev.Shard, b *sandbox.Box, c WriteCase) *rp.Fail {
 		}
 		sig := "wrote-outside-permitted-set"
 		switch {
-		case ch.Path == spokRel || ch.Path == "proj/spokfile" || ch.Path == "proj/conf/real.spok":
+		case ch.Path == spokRel || ch.Path == "proj/spokfile" || ch.Path == "proj/conf/spokfile":
 			sig = "spokfile-touched"
 		case strings.HasSuffix(ch.Path, ".gitignore"):
 			sig = "gitignore-touched"
